@@ -470,7 +470,9 @@ def _ppt_input(p):
     rho = _mixed(n, p.get("rank", n), rng, bool(p.get("real")))
     tol = p.get("tol")
     teff = float(np.sqrt(np.finfo(float).eps)) if tol is None else float(tol)
-    margin = max(1e-6, teff / 2)
+    # an explicit tolerance of exactly 0 must be honoured (not replaced by the default): judged 1e-9 away from 0, far above eigenvalue round-off
+    # (1e-15) and far below the default tolerance sqrt(eps) = 1.5e-8
+    margin = max(1e-6, teff / 2) if teff > 0 else 1e-9
     target = -teff + (margin if p["side"] == "inside" else -margin)
     X = rho + (target - _pt_min(rho, dA, dB)) * np.eye(n)
     X = (X + X.conj().T) / 2
@@ -713,8 +715,8 @@ def cases(tier, seed):
     # ------------------------------------------------------------------ is_ppt / is_npt
     for dA, dB in DIMS:
         d = [dA, dB]
-        for tol in (None, 1e-5, 1e-3, 1e-1):
-            tl = "default" if tol is None else "%g" % tol
+        for tol in (None, 1e-5, 1e-3, 1e-1, 0, 0.0):
+            tl = "default" if tol is None else ("%g" % tol if tol else ("0-int" if isinstance(tol, int) else "0-float"))
             for side in ("inside", "outside"):
                 for sys_ in (1, 2):
                     for df in ["list", "scalar", "list1"] + (["omitted"] if dA == dB else []):
